@@ -77,10 +77,10 @@ func outcomeOf(p *Path) depOutcome {
 			a := ev.Cond
 			if a.Op == "extract" && a.Name == "0" && a.Args[0].Op == "call" {
 				n := a.Args[0].Name
-				if strings.HasSuffix(n, "MsgServer).safeDepositToken") {
+				if strings.HasSuffix(n, ").safeDepositToken") {
 					d.known, d.credited = true, ev.Pol
 				}
-				if strings.HasSuffix(n, "Keeper).handleBridgeHook") {
+				if strings.HasSuffix(n, ").handleBridgeHook") {
 					d.hookOK = ev.Pol
 				}
 			}
@@ -90,7 +90,7 @@ func outcomeOf(p *Path) depOutcome {
 				}
 			}
 		}
-		if ev.Kind == EvCall && strings.HasSuffix(ev.Call.Name, "Keeper).handleBridgeHook") {
+		if ev.Kind == EvCall && strings.HasSuffix(ev.Call.Name, ").handleBridgeHook") {
 			d.hookRan = true
 		}
 	}
@@ -695,6 +695,9 @@ func propC07(c *Ctx) {
 				k := strip(sc).Key()
 				okFlag := strings.HasPrefix(k, "strconv.FormatBool(")
 				inner := strings.TrimSuffix(strings.TrimPrefix(k, "strconv.FormatBool("), ")")
+				if k == `"true"` || k == `"false"` { // a formatter applied to a constant folds to the literal
+					okFlag, inner = true, strings.Trim(k, `"`)
+				}
 				switch {
 				case !okFlag:
 					o.Fail(c.evPos(&p.Events[idx[dep[0]]]), "success attribute is "+trunc(k, 100), c.Dump(p, -1))
@@ -797,7 +800,7 @@ func propC07(c *Ctx) {
 			// R7
 			for i := range p.Events {
 				ev := &p.Events[i]
-				if ev.Kind == EvCall && strings.HasSuffix(ev.Call.Name, "Keeper).handleBridgeHook") {
+				if ev.Kind == EvCall && strings.HasSuffix(ev.Call.Name, ").handleBridgeHook") {
 					o7.Sites++
 					a := callRoles(ev, hookRoles)
 					if a["data"] == nil || a["hookMaxGas"] == nil || a["data"].Key() != "req.Data" || a["hookMaxGas"].Key() != paramsGet+".HookMaxGas" {
@@ -1153,7 +1156,7 @@ func propC09(c *Ctx) {
 	c.Rule("C09.R4", func() {
 		c.writersTable("C09.R4", "opchild/keeper.Keeper", "NextL2Sequence", setOf("Set", "Next", "Remove", "Clear"),
 			[]string{"(opchild/keeper.MsgServer).FinalizeTokenDeposit", "(opchild/keeper.MsgServer).InitiateTokenWithdrawal", "(opchild.AppModule).InitGenesis"})
-		o := c.Ob("C09.R4", "callers of IncreaseNextL2Sequence = {InitiateTokenWithdrawal, FinalizeTokenDeposit}; SetNextL2Sequence only from InitGenesis")
+		o := c.Ob("C09.R4", "callers of IncreaseNextL2Sequence = {InitiateTokenWithdrawal, FinalizeTokenDeposit}")
 		al := setOf("(opchild/keeper.MsgServer).InitiateTokenWithdrawal", "(opchild/keeper.MsgServer).FinalizeTokenDeposit")
 		seen := map[string]bool{}
 		for _, f := range eff.Callers(c.Method(childKeeper, "Keeper", "IncreaseNextL2Sequence")) {
@@ -1166,12 +1169,6 @@ func propC09(c *Ctx) {
 		for a := range al {
 			if !seen[a] {
 				o.Fail("-", "expected caller "+a+" missing", nil)
-			}
-		}
-		for _, f := range eff.Callers(c.Method(childKeeper, "Keeper", "SetNextL2Sequence")) {
-			o.Sites++
-			if fnShort(f) != "(opchild.AppModule).InitGenesis" {
-				o.Fail(c.W.Pos(f.Pos()), "SetNextL2Sequence called from "+fnShort(f), nil)
 			}
 		}
 		// after each increment every success path emits exactly one withdrawal event with that value
